@@ -266,6 +266,31 @@ def run(ctx, idx):
                    "`%s` is replaced by a default only when it is None, if at all" % pn if bad_ is None else
                    "`%s` replaces a falsy `%s` by a default: a program asked for with no libraries (`()` / `[]`) gets the default libraries' commands instead of none" % (K.src(bad_)[:60], pn))
     ctx.floor("C19.d", "library request parameters", n_req, 2)
+    ctx.rule("C19.e", "Constructing a program leaves the process's import machinery as it found it: Program.__init__ / from_source and what they call do not extend or reorder sys.path, edit sys.modules / sys.meta_path / sys.path_hooks, call site.addsitedir or change the working directory - a search path added for one program decides which module a later program's library name resolves to.")
+    n_fn = 0
+    for f_ in K.helper_closure(idx, init) + ([prog.methods["from_source"]] if "from_source" in prog.methods else []):
+        node0 = getattr(f_, "node_orig", None) or getattr(f_, "node", None)
+        if node0 is None:
+            continue
+        n_fn += 1
+        for x_ in ast.walk(node0):
+            hit = None
+            if isinstance(x_, ast.Call) and isinstance(x_.func, ast.Attribute) and x_.func.attr in ("append", "insert", "extend", "remove", "pop", "clear", "sort", "reverse", "update", "setdefault", "__setitem__", "popitem"):
+                q_ = idx.qualname(f_.module, x_.func.value, f_) or K.src(x_.func.value)
+                if q_ in ("sys.path", "sys.modules", "sys.meta_path", "sys.path_hooks", "sys.path_importer_cache"):
+                    hit = q_
+            if isinstance(x_, ast.Call) and (idx.qualname(f_.module, x_.func, f_) or "") in ("site.addsitedir", "os.chdir", "importlib.invalidate_caches") and (idx.qualname(f_.module, x_.func, f_) or "") != "importlib.invalidate_caches":
+                hit = idx.qualname(f_.module, x_.func, f_)
+            if isinstance(x_, (ast.Assign, ast.AugAssign, ast.Delete)):
+                tg = x_.targets if not isinstance(x_, ast.AugAssign) else [x_.target]
+                for t_ in tg:
+                    base_ = t_.value if isinstance(t_, ast.Subscript) else t_
+                    q_ = idx.qualname(f_.module, base_, f_) if isinstance(base_, (ast.Attribute, ast.Name)) else None
+                    if q_ in ("sys.path", "sys.modules", "sys.meta_path", "sys.path_hooks"):
+                        hit = q_
+            if hit:
+                ctx.violate("C19.e", "%s::import-state(%s)" % (f_.key, hit), K.rel(f_), x_.lineno, "`%s` changes `%s`, which belongs to the whole process and is never put back: the libraries a later program can import - and which file a bare module name resolves to - now depend on the programs constructed before it" % (K.src(x_)[:60], hit))
+    ctx.floor("C19.e", "functions on the construction path", n_fn, 2)
     # the comprehension filtering Command.get_commands()
     sel = None
     for n in own_nodes(init.node):
